@@ -24,4 +24,19 @@ def run(F, tier):
     # the block-3 values the classification reads (validation flag 119, MUR 108) must reach the model as written
     import re
     accept.u7(rep, F, ("block3", re.compile(r"^headers::UserHeader::parse$"), 1))
+    # cover is read off the parsed cover sequence: a cover-sequence field that was consumed from the text but did not
+    # make the parser build the sequence is invisible to is_cover_message (G4 conditional construction, shared
+    # with C01; only the types that carry a classification predicate)
+    from . import grules
+    tms, ft = grules.models(F)
+    pred_types = {(b.get("impl_self") or "") for b in F.bodies
+                  if b.get("name") in classify.PREDS and (b.get("impl_self") or "").startswith("messages::")}
+    keep = len(rep.findings)
+    grules.g4_g5_g6(rep, [tm for tm in tms if tm.T in pred_types])
+    rep.findings = rep.findings[:keep] + [f for f in rep.findings[keep:]
+                                          if f.rule == "G4" and f.instance.endswith(":conditional-drop")]
+    for rid in ("G5", "G6"):
+        rep.rules.pop(rid, None)
+    if "G4" in rep.rules:
+        rep.rules["G4"]["floor"] = 40       # three message types here, not thirty
     return rep
